@@ -423,10 +423,14 @@ class Gen:
         r = self.rng
         clauses = []
         bound = []
+        # only a comprehension that is not inside another one may reuse a program variable as its loop variable (inside
+        # another comprehension CPython's inlined scopes make the name local to the outer one: C03's known finding)
+        nested = getattr(self, "in_comp", 0) > 0
+        self.in_comp = getattr(self, "in_comp", 0) + 1
         for gi in range(r.choice([1, 1, 1, 2])):
             src, ek = self._comp_source(d)
             name = f"c{self.newtag()}"
-            if gi == 0 and self.vars and r.random() < 0.2 and self.on("comprehension_outer_falsy_shadow"):
+            if gi == 0 and not nested and self.vars and r.random() < 0.2 and self.on("comprehension_outer_falsy_shadow"):
                 # the loop variable shadows a variable of the program (whatever it holds, falsy values too): it must be intact afterwards
                 name = r.choice(sorted(self.vars))
                 self.features.add("comprehension_outer_falsy_shadow")
@@ -585,6 +589,10 @@ class Gen:
 
     # ---- statements ---------------------------------------------------------
     def stmt(self):
+        self.in_comp = 0
+        return self._stmt()
+
+    def _stmt(self):
         r = self.rng
         k = r.random()
         d = r.randint(1, self.maxdepth)
